@@ -83,6 +83,8 @@ def run_case(c):
                 ch = (chords.sevenths if sv else chords.triads)(k)[d - 1]
                 ch = list(ch)
                 num = MAJNUM[d - 1] + ("7" if sv else "")
+                # the chord has been named on its own first (by the chord module, with its default flags)
+                chords.determine(list(ch), True); chords.determine(list(ch))
                 return {"chord": ch, "short": progressions.determine(list(ch), k, True), "long": progressions.determine(list(ch), k),
                         "back": progressions.to_chords(num, k)}
             rec = call("determine", {"k": list(k), "d": d, "seventh": sv}, f,
